@@ -106,16 +106,23 @@ class ImplRunner:
         if k == "ins":
             m = self._meas(t[1])
             pts = [V.build_point(p, tf) for p in t[2:]]
-            now = [p[1] for p in t[2:] if p != "!" and p[1].startswith("now:")]
+            now = [p[1] for p in t[2:] if not isinstance(p, str) and p[1].startswith("now:")]
+            bad = [x for x in t[2:] if isinstance(x, str) and x.startswith("!")]
+
+            def do_insert():
+                if bad and bad[0] in ("!m", "!r"):
+                    return self._insert_malformed(t, pts, m, via, bad[0])
+                single = len(pts) == 1 and t[2] != "!" and not now and self._single_insert(t)
+                if via:
+                    h = db.measurement(m)
+                    n = h.insert(pts[0]) if single else h.insert_multiple(pts)
+                else:
+                    n = db.insert(pts[0], m) if single else db.insert_multiple(pts, m)
+                return f"ok {n}"
+
             if now:
-                return self._insert_with_now(now[0], pts, m, via, t)
-            single = len(pts) == 1 and t[2] != "!" and self._single_insert(t)
-            if via:
-                h = db.measurement(m)
-                n = h.insert(pts[0]) if single else h.insert_multiple(pts)
-            else:
-                n = db.insert(pts[0], m) if single else db.insert_multiple(pts, m)
-            return f"ok {n}"
+                return self._with_now(now[0], do_insert)
+            return do_insert()
         if k in ("search", "count", "contains", "get", "remove"):
             q, m = Q(t[1]), self._meas(t[2])
             tgt = db.measurement(m) if via else db
@@ -228,7 +235,30 @@ class ImplRunner:
             return "ok unit"
         raise ValueError(f"unknown op {t!r}")
 
-    def _insert_with_now(self, now_atom, pts, m, via, t):
+    def _insert_malformed(self, t, pts, m, via, kind):
+        """an insert_multiple that aborts for another reason than a non-Point element: a Point whose dict was
+        mutated to an invalid state (ValueError), or the caller's iterable raising. The expected state is the
+        same as for a non-Point (the points before it are stored); the error class is checked here and
+        reported in the Model's terms."""
+        def it():
+            for p in pts:
+                if isinstance(p, V.RaisingIterable):
+                    raise ZeroDivisionError("the iterable raised")
+                yield p
+
+        expected = ValueError if kind == "!m" else ZeroDivisionError
+        try:
+            if via:
+                n = self.db.measurement(m).insert_multiple(it())
+            else:
+                n = self.db.insert_multiple(it(), m)
+            return f"ok {n}"
+        except expected:
+            return "err type"        # the Model's name for "the offending element was rejected"
+        except Exception as e:
+            return "err " + V.err_class(e)
+
+    def _with_now(self, now_atom, action):
         """points without a time are stamped with the insertion time: pin `datetime.now` inside
         tinyflux.database for the duration of the call"""
         import tinyflux.database as DBM
@@ -244,13 +274,9 @@ class ImplRunner:
         saved = DBM.datetime
         DBM.datetime = _Now
         try:
-            if via:
-                n = self.db.measurement(m).insert_multiple(pts)
-            else:
-                n = self.db.insert_multiple(pts, m)
+            return action()
         finally:
             DBM.datetime = saved
-        return f"ok {n}"
 
     @staticmethod
     def _single_insert(t):
